@@ -1,6 +1,9 @@
 (* Line dispatch for C06: case line -> result line.
      gen <listing|chain|ops|script> <script bytes>   -> ok <output bytes> | err <class>
      runlisting <script bytes> <separate|aliased>    -> ok <value of z|undef> <x written 0|1> <registers> | err <class>
+     genstdout <type> <script bytes>                 -> ok <exit status> <stdout bytes>          (real binary)
+     genout <type|tmpl:type|tmpl:broken> <script bytes> ...   the binary run with -out F once per script, same F
+                                                     -> ok <exit statuses> <final bytes of F | nofile>
    The generator configuration is the one of cmd/addchain/gen.go (x, z, t%d). *)
 From Coq Require Import String.
 From Coq Require Import List NArith ZArith Bool.
@@ -29,10 +32,42 @@ Definition too_large (src : list N) : bool :=
 Definition bounded {A} (src : list N) (o : unit -> outcome A) : outcome A :=
   if too_large src then Err ($"toolarge") else o tt.
 
+Definition parse_sel (s : list N) : tmpl_sel :=
+  if str_eqb s $"tmpl:broken" then TBroken
+  else match s with
+       | 116 :: 109 :: 112 :: 108 :: 58 :: name => TType name     (* tmpl:<builtin name> *)
+       | _ => TType s
+       end.
+
+Definition print_file (f : option (list N)) : list N :=
+  match f with Some b => print_bytes b | None => $"nofile" end.
+
+(* genout <type> <script> ... : the scripts are generated one after the other into the same file *)
+Definition run_genout (sel : list N) (args : list (list N)) : list N :=
+  match map_opt parse_bytes args with
+  | Some srcs =>
+      if existsb too_large srcs then r_err $"toolarge"
+      else let '(es, f) := gen_out_history default_cfg (parse_sel sel) None srcs in
+           r_ok (print_list print_decN es ++ [sp] ++ print_file f)
+  | None => r_badcase
+  end.
+
 Definition run (line : list N) : list N :=
   match split sp line with
+  | f :: sel :: s1 :: s2 :: rest =>
+      if str_eqb f $"genout" then run_genout sel (s1 :: s2 :: rest) else r_badcase
   | [f; a; b] =>
-      if str_eqb f $"gen" then
+      if str_eqb f $"genout" then run_genout a [b]
+      else if str_eqb f $"genstdout" then
+        match parse_bytes b with
+        | Some src => if too_large src then r_err $"toolarge"
+                      else let '(e, out) := match parse_sel a with
+                                            | TType name => gen_stdout default_cfg name src
+                                            | TBroken => (1, [])
+                                            end in r_ok (print_decN e ++ [sp] ++ print_bytes out)
+        | None => r_badcase
+        end
+      else if str_eqb f $"gen" then
         match parse_bytes b with
         | Some src => print_outcome print_bytes (bounded src (fun _ => gen default_cfg a src))
         | None => r_badcase
